@@ -462,6 +462,38 @@ func init() {
 		}
 		// synthetic lists larger than the read buffer: repeated host names, rules of
 		// every kind, with and without a final line terminator
+		// retrievals interleaved with scans, on a file-backed list whose lines are all
+		// 32 bytes long (a rule starts exactly one read block after another rule)
+		{
+			var sb strings.Builder
+			for i := 0; i < 520; i++ {
+				sb.WriteString(fmt.Sprintf("0.0.0.0 h%04d.aligned-line.test\n", i)) // 32 bytes
+			}
+			content := sb.String()
+			lists := []c11List{{4, content, false}}
+			st, cleanup := c11Storage(lists, true)
+			scanned := c11Scan(st)
+			bad := func(what string) {
+				c.Run.Violate(ev.Violation{Pred: "retrieve-returns-scanned-rule", Sig: map[string]any{"aligned": true, "what": what},
+					What: "file-backed list of 520 lines of 32 bytes each: " + what, Replay: map[string]any{"lists": []any{}}})
+			}
+			if len(scanned) != 520 || len(content) != 520*32 {
+				bad(fmt.Sprintf("scan yields %d rules for %d bytes", len(scanned), len(content)))
+			} else {
+				for _, pair := range [][2]int{{0, 128}, {128, 256}, {1, 129}, {300, 428}, {128, 0}, {511, 383}} {
+					for _, k := range pair {
+						evals++
+						r, err := st.RetrieveRule(scanned[k].idx)
+						if err != nil || r == nil || r.Text() != scanned[k].text {
+							bad(fmt.Sprintf("after retrievals and scans, RetrieveRule of line %d fails: %v", k, err))
+							break
+						}
+						c11Scan(st) // a scan between two retrievals moves the file offset
+					}
+				}
+			}
+			cleanup()
+		}
 		// more lists than the id assignments above use: six and eight lists, ids in no particular order
 		for _, ids := range [][]int{{50, 10, 40, 20, 30, -5}, {3, 1, 2, 4, 5, 0, -1, 7}, {10, 20, 30, 40, 50, 15}, {math.MaxInt32, 5, math.MinInt32, 4, 0, 3, -2, 1}} {
 			var lists []c11List
